@@ -158,7 +158,21 @@ def parse_sweep(line):
     return out
 
 
-def judge_sweep(ctx, kind, recs, reflen, entries, case, counters):
+def cut_class(text, n):
+    """what the last byte of an n-byte buffer would have to hold if the text went on: the character text[n-1]"""
+    c = text[n - 1:n]
+    if c == b",":
+        return "comma"
+    if c in (b"[", b"]"):
+        return "bracket"
+    if c == b"-":
+        return "dash"
+    if c.isdigit():
+        return "digit"
+    return "name-char"
+
+
+def judge_sweep(ctx, kind, recs, reflen, entries, case, counters, text=None):
     """the property text on every (list, n): stores inside [0,n) only; NUL-terminated; fits (L < n) => returns L
     and leaves the text; does not fit => reports truncation and leaves a NUL-terminated prefix"""
     kname = "ranged" if kind == "r" else "deranged"
@@ -167,6 +181,15 @@ def judge_sweep(ctx, kind, recs, reflen, entries, case, counters):
         counters["calls"] += 1
         cls = ""
         bad = []
+        bd = counters.setdefault("boundary", {})
+        prod = "hostlist_%s_string" % kname
+        if n - 1 - reflen in (-1, 0, 1):
+            key = "%s, text = n-1%+d bytes (%s)" % (prod, reflen - (n - 1), {1: "one byte too many", 0: "fills the buffer exactly",
+                                                                              -1: "one byte to spare"}[reflen - (n - 1)])
+            bd[key] = bd.get(key, 0) + 1
+        if text is not None and reflen >= n:
+            key = "%s, cut with a %s on the last byte" % (prod, cut_class(text, n))
+            bd[key] = bd.get(key, 0) + 1
         if oob:
             bad.append(("write-at-n" if all(j >= n for j in oob) else "write-below-0",
                         "stores outside the %d bytes given at index(es) %s" % (n, oob[:6])))
@@ -377,7 +400,7 @@ FIXED = [b"aaaaaaa,b,c", b"aaaaaaa", b"a1,b", b"a[1-3],b", b"a[1-3,07-09],b5", b
 
 # ------------------------------------------------------------------ running
 class PrintRunner:
-    OPS = ["dump", "ptext r", "ptext d", "psweep r +2", "psweep d +2", "pback r", "pback d"]
+    OPS = ["dump", "ptext r", "ptext d", "psweep r +2", "psweep d +2", "pback r", "pback d", "pranges s", "pranges p"]
     EXACT = ["pexact r +2", "pexact d +2"]
 
     # the literal buffer sizes of the two fixed callers (Print.lean WCOLL_STR / XLIST_BUF)
@@ -454,21 +477,47 @@ class PrintCli:
         self.pdsh = os.path.join(self.repo, "src/pdsh/pdsh") if self.repo else None
         self.cwd = os.path.join(ctx.scratch, "clicwd14")
         os.makedirs(self.cwd, exist_ok=True)
+        self.asan = self.build_asan() if self.repo else None
 
-    def run(self, args, timeout=20):
-        env = {"PATH": "/usr/bin:/bin", "HOME": self.cwd, "LC_ALL": "C"}
+    def build_asan(self):
+        """a second scratch copy of the same working tree, compiled with AddressSanitizer: the two fixed callers in
+        opt.c (wcoll_str[1024] on the stack, the heap block of list_push_hostlist) are then watched by the sanitizer
+        in the real binary, not only through their observable output"""
+        from vlib.common import run
+        dst = os.path.join(self.ctx.scratch, "repo-asan")
+        run(["cp", "-a", self.repo, dst], check=True)
+        p = run("make clean >/dev/null 2>&1; rm -f src/pdsh/testconfig.c; "
+                "make -j8 CFLAGS='-g -O1 -fsanitize=address -fno-omit-frame-pointer' LDFLAGS='-fsanitize=address' "
+                ">build-asan.log 2>&1", cwd=dst, timeout=900)
+        exe = os.path.join(dst, "src/pdsh/pdsh")
+        ok = p.returncode == 0 and os.path.exists(exe)
+        if ok:
+            q = run("nm %s | grep -c __asan_init" % exe)
+            ok = q.stdout.strip() not in (b"", b"0")
+        if not ok:
+            self.ctx.broken.append(("C-BROKEN", "AddressSanitizer build of pdsh",
+                                    open(os.path.join(dst, "build-asan.log"), errors="replace").read()[-1500:]))
+            return None
+        return exe
+
+    def run(self, args, timeout=20, asan=False):
+        env = {"PATH": "/usr/bin:/bin", "HOME": self.cwd, "LC_ALL": "C",
+               "ASAN_OPTIONS": "detect_leaks=0:symbolize=0:abort_on_error=0:exitcode=99"}
         try:
-            p = subprocess.run([self.pdsh] + args, stdout=subprocess.PIPE, stderr=subprocess.PIPE, cwd=self.cwd,
+            p = subprocess.run([self.asan if asan else self.pdsh] + args, stdout=subprocess.PIPE, stderr=subprocess.PIPE, cwd=self.cwd,
                                env=env, timeout=timeout, stdin=subprocess.DEVNULL)
             return p.returncode, p.stdout, p.stderr
         except subprocess.TimeoutExpired as e:
             return "timeout", e.stdout or b"", e.stderr or b""
 
-    def targets(self, flag, wargs, timeout=20):
+    def targets(self, flag, wargs, timeout=20, asan=False):
         """pdsh -q|-Q -w ... -> (class, last line of the listing | None)"""
-        rc, out, err = self.run([flag] + wargs, timeout=timeout)
+        rc, out, err = self.run([flag] + wargs, timeout=timeout, asan=asan)
         if rc == "timeout":
             return "timeout", None
+        m = re.search(rb"ERROR: AddressSanitizer: (\S+)", err)
+        if m:
+            return "crash:asan:" + m.group(1).decode("latin1"), None
         if rc != 0:
             if rc < 0 or rc >= 128 or b"stack smashing" in err or b"Sanitizer" in err:
                 return "crash:rc%s" % rc, None
